@@ -523,7 +523,7 @@ pub fn other_devs(doc: &Doc, full_bytes: bool) -> Vec<Dev> {
 		}
 	}
 	if nsplit > 0 {
-		for s in [4u16, 515, 516, 517] {
+		for s in [1u16, 2, 3, 4, 5, 515, 516, 517, 65535] {
 			out.push(Dev::SplitDeclared(s));
 		}
 		out.push(Dev::SplitUnfinished);
